@@ -228,7 +228,7 @@ class PolicyGen:
         arg = rng.randint(0, 5)
         op = rng.choice(OPS)
         if bad == "argidx":
-            arg = rng.choice([6, 7, 100, M32, 1 << 31])
+            arg = rng.choice([6, 6, 6, 7, 8, 100, M32, 1 << 31])
         if bad == "op":
             op = "Other%d" % rng.randint(0, 5)
         return (arg, op, self.operand())
@@ -298,6 +298,29 @@ class PolicyGen:
                     if rng.random() < 0.3 and nc >= 2:
                         conds[1] = (conds[0][0], conds[1][1], conds[1][2])    # same argument twice
                     nwc.append(dict(name=nm, conds=conds))
+                if nwc and rng.random() < 0.35:
+                    # another alternative for a syscall that has one already, RELATED to it: a sub-list, a longer list, the
+                    # same list again, the same conditions in another order, one operand changed - before or after it
+                    base = rng.choice(nwc)
+                    bc = list(base["conds"])
+                    how = rng.choice(["subset", "subset", "superset", "same", "permuted", "one_changed"])
+                    if how == "subset":
+                        keep = rng.randint(1, max(1, len(bc) - 1))
+                        rel = [bc[j] for j in sorted(rng.sample(range(len(bc)), min(keep, len(bc))))]
+                    elif how == "superset":
+                        rel = bc + [self.cond() for _j in range(rng.randint(1, 2))]
+                        rng.shuffle(rel)
+                    elif how == "permuted":
+                        rel = bc[:]
+                        rng.shuffle(rel)
+                    elif how == "one_changed":
+                        rel = bc[:]
+                        j = rng.randrange(len(rel))
+                        rel[j] = (rel[j][0], rng.choice(OPS), rel[j][2]) if rng.random() < 0.5 else (rel[j][0], rel[j][1], self.operand())
+                    else:
+                        rel = bc[:]
+                    at = nwc.index(base)
+                    nwc.insert(rng.choice([at, at + 1, len(nwc)]), dict(name=base["name"], conds=rel))
                 groups.append(dict(action=self.action(), names=names, nwc=nwc))
             if rng.random() < 0.4 and len(groups) >= 2:
                 # same syscall in several groups
@@ -316,6 +339,37 @@ class PolicyGen:
         if defect:
             self.inject(pol, defect, names_all)
         return pol
+
+    def edited(self, pol):
+        """The same policy after an edit of its exported fields that keeps the default action and the number of groups."""
+        import copy
+        rng = self.rng
+        p2 = copy.deepcopy(pol)
+        ai = self.arches[pol["arch"]]
+        names_all = [s for (_, s) in ai["table"]]
+        g = rng.choice(p2["groups"])
+        used = set(g["names"]) | set(w["name"] for w in g["nwc"])
+        free = [n for n in names_all if n not in used]
+        how = rng.choice(["action", "add_name", "drop_name", "operand", "add_cond_entry", "swap_groups"])
+        if how == "action":
+            g["action"] = rng.choice([a for a in self.consts["named"] if a != g["action"]])
+        elif how == "add_name" and free:
+            g["names"].append(rng.choice(free))
+        elif how == "drop_name" and g["names"]:
+            g["names"].pop(rng.randrange(len(g["names"])))
+        elif how == "operand" and g["nwc"]:
+            w = rng.choice(g["nwc"])
+            j = rng.randrange(len(w["conds"]))
+            w["conds"] = list(w["conds"])
+            w["conds"][j] = (w["conds"][j][0], rng.choice(OPS), self.operand())
+        elif how == "add_cond_entry" and free:
+            g["nwc"].append(dict(name=rng.choice(free), conds=[self.cond()]))
+        elif how == "swap_groups" and len(p2["groups"]) >= 2:
+            p2["groups"].reverse()
+        else:
+            g["action"] = rng.choice([a for a in self.consts["named"] if a != g["action"]])
+        p2["kind"] = pol["kind"] + "/edited-in-place"
+        return p2
 
     DEFECTS = ["default_unnamed", "no_groups", "unknown_name", "unknown_cond_name", "dup_name", "cond_uncond",
                "argidx", "badop", "empty_conds"]
@@ -399,6 +453,10 @@ class PolicyGen:
         pool_nr.update([0, 1, M32, 0x3fffffff, 0x40000000, 0x40000001, 0x7fffffff, 0x80000000, 4])
         for n in listed[:10]:
             pool_nr.add(n | 0x40000000)
+        if mask:
+            # a table whose numbers carry a mask: the same numbers without it belong to ANOTHER syscall
+            for n in listed[:40]:
+                pool_nr.add(n & ~mask & M32)
         pool_nr.update(rng.sample([n for (n, _) in ai["table"]], min(5, len(ai["table"]))))
         operands = [v for cl in cond_by_nr.values() for cs in cl for (_, _, v) in cs]
         leak = list(listed[:20]) + [v & M32 for v in operands[:20]] + [v >> 32 for v in operands[:20]]
@@ -431,6 +489,7 @@ class PolicyGen:
                 if cond_nrs and rng.random() < 0.6:
                     nr = rng.choice(cond_nrs)
                     args = rand_args()
+                    unmasked = mask and rng.random() < 0.5
                     # aim at one list of that syscall: satisfy / nearly satisfy each of its conditions
                     cs = rng.choice(cond_by_nr[nr])
                     for (a, o, v) in cs:
@@ -440,6 +499,8 @@ class PolicyGen:
                         (a, o, v) = rng.choice(cs)
                         if a <= 5:
                             args[a] = argvals(v)
+                    if unmasked:
+                        nr = nr & ~mask & M32       # arguments that satisfy a rule written for a different number
                 else:
                     nr = rng.choice(pool_nr) if rng.random() < 0.9 else rng.getrandbits(32)
                     args = rand_args()
